@@ -567,6 +567,8 @@ func runC03(c *Check) {
 	c.ruleUnconfirmedSetKeepsEveryEntry("R22")
 	c.ruleRelevanceScansEverything("R23", "R24")
 	c.ruleAlreadyConfirmedNeedsBlockInChain("R25")
+	c.ruleEveryQueuedTxProcessed("R27")
+	c.ruleNotificationFreshPerDelivery("R28")
 	c.whoMayCall("R26", "storage.SaveTxState", map[string]string{"spynode.(*Node).processUnconfirmedTx": "delivery of an unconfirmed tx and its conflicts", "spynode.(*Node).ProcessBlock": "confirmations and cancellations", "spynode.(*Node).provideBlock": "refeed", "spynode.(*Node).checkTxDelays": "safe after the delay"}, 6)
 	c.ruleWiring("R20", c.constructorsIn("handlers", "spynode"))
 	c.ruleFlagOnlyFromCall("R14", "spynode.(*Node).ProcessBlock", "(*state.MemPool).RemoveTransaction", "in-mempool-flag",
